@@ -159,26 +159,37 @@ package tglib
 //@ ensures knasint: ue.KnasInt == kdfspec.AlgKey(kamf, 0x02, old(ue.IntegrityAlg))
 //@ assigns &ue.Kamf, &ue.KnasEnc, &ue.KnasInt
 
-// ---- assumed contracts used by the driver-level checks (C19) ----
+// ---- assumed contracts used by the driver-level checks (C01, C02, C19) ----
 // The build-and-encode wrappers end in the reflection-driven NGAP encoder; what they put on the wire
-// is C13 (builders proved, wrappers bounded).  Here they return octets or an error.
+// is C13 (builders proved, wrappers bounded).  Here they return octets or an error, and record what
+// they were asked for in the ghost log "ngap.built"; the protection entry point records the header
+// type and the context flags in "nas.protect".
 //@ func GetNGSetupRequest
 //@ trusted
+//@ ghostlog ngap.built: trace.Rec(trace.NGSetupRequest, int64(bitlength), 0, 0)
 //@ func GetInitialUEMessage
 //@ trusted
+//@ ghostlog ngap.built: trace.Rec(trace.InitialUEMessage, 0, ranUeNgapID, 0)
 //@ func GetUplinkNASTransport
 //@ trusted
+//@ ghostlog ngap.built: trace.Rec(trace.UplinkNASTransport, amfUeNgapID, ranUeNgapID, 0)
 //@ func GetInitialContextSetupResponse
 //@ trusted
+//@ ghostlog ngap.built: trace.Rec(trace.InitialContextSetupResponse, amfUeNgapID, ranUeNgapID, 0)
 //@ func GetInitialContextSetupResponseForServiceRequest
 //@ trusted
+//@ ghostlog ngap.built: trace.Rec(trace.InitialContextSetupResponseForService, amfUeNgapID, ranUeNgapID, pduId)
 //@ func GetPDUSessionResourceSetupResponse
 //@ trusted
+//@ ghostlog ngap.built: trace.Rec(trace.PDUSessionResourceSetupResponse, amfUeNgapID, ranUeNgapID, pduId)
 //@ func GetPDUSessionResourceReleaseResponse
 //@ trusted
+//@ ghostlog ngap.built: trace.Rec(trace.PDUSessionResourceReleaseResponse, amfUeNgapID, ranUeNgapID, pduId)
 //@ func GetUEContextReleaseComplete
 //@ trusted
+//@ ghostlog ngap.built: trace.Rec(trace.UEContextReleaseComplete, amfUeNgapID, ranUeNgapID, 0)
 //@ func GetNasPdu
 //@ trusted
 //@ func EncodeNasPduWithSecurity
 //@ trusted
+//@ ghostlog nas.protect: trace.Rec(int(securityHeaderType), trace.B(securityContextAvailable), trace.B(newSecurityContext), 0)
